@@ -321,6 +321,22 @@ def c08(pid, tier, t0):
         "c is literal (cw is not ce), as the property words it", "filters (!) are exercised by C05 and C04, not here"])
 
 
+@check("C09")
+def c09(pid, tier, t0):
+    exe = nv.build_harness("c09_repeat", "plain", ["c09_repeat.c"], wraps=WRAPS)
+    res = nv.run_shards(exe, ["tier=" + tier, "deadline=%d" % dl(tier)], nv.NCPU, dl(tier) + 120)
+    res.stats["evaluations"] = res.stats.get("relations_checked", 0)
+    res.stats["transitions"] = res.stats.get("transitions", 0) + res.stats.get("twin_probes", 0)
+    return nv.finish(pid, tier, t0, res, {
+        "rule": "for every state reached by <= depth preceding commands from {j, w, $, x, dd, yyp, xu, yw} out of every (buffer, line, column) start: for each of 58 change commands "
+                "(x X d c y s S C D r ~ g~ gu gU J p P < > ! i a I A o O with counts on either side, register prefixes, multi-byte / multi-line / edited inserts, prompting filters) the twin pairs "
+                "'c.' vs 'cc', 'c3.' vs 'cccc', 'c.f' vs 'ccf' for f in {x, p, .}, 'cj.' vs 'cjc'; 9 macros: '@q' vs typing, '2@q' vs twice, '@q@@' vs twice; "
+                "distinct_nontrivial = distinct resulting states among the relations",
+        "depth_bound": res.stats.get("depth"),
+        "explanation": "purely differential: both key sequences are run from the same forked state of the real editor and must end in identical text, cursor and registers (all 256 except . : %)",
+    }, ["the recording-buffer boundary (inserts of 4080..4100 bytes followed by '.') is only checked for crashes here; C05 runs under AddressSanitizer"])
+
+
 def replay(path):
     print("replay artefact:")
     print(open(path).read())
